@@ -27,15 +27,15 @@ try:
         print('demo on PATCHED copy:   rc=%d' % r.returncode, (r.stderr or r.stdout).strip().splitlines()[-1:])
         shutil.rmtree(wd)
     env = dict(os.environ, VERIF_REPO=tmp, VERIF_EVIDENCE_DIR=os.path.join(tmp, 'ev'), VERIF_NO_AUDIT='1')
-    caught = []
+    caught, errors = [], []
     for p in props:
         r = subprocess.run([PY, '-B', '-m', 'sa.cli', p], cwd=VERIF, env=env, capture_output=True, text=True)
         if r.returncode != 0:
-            caught.append(p)
+            (caught if r.returncode == 1 else errors).append(p)
             print('== %s rc=%d' % (p, r.returncode))
             for ln in r.stdout.splitlines():
                 if ln.startswith('  ') and not ln.startswith('    path') or ln.startswith('ANALYSIS'):
                     print('   ', ln[:260])
-    print('caught by:', caught or 'NOTHING')
+    print('caught by:', caught or 'NOTHING', ('   ANALYSIS-ERROR only (exit 2): %s' % errors) if errors else '')
 finally:
     shutil.rmtree(tmp, ignore_errors=True)
